@@ -44,6 +44,53 @@ PROPS = {
         note="reference reader trusted; doubles limited to the enumerated decimal/binade families (2^64 bit patterns are not enumerable); custom double formats out of scope",
         assumptions=COMMON_ASSUMPTIONS,
     ),
+    "C03": dict(
+        level="model_checking",
+        runs=[dict(harness="parsegraph", variant="fast", shards=16, args=["mode=c03"], tag="c03")],
+        deadline=dict(quick=300, thorough=2400),
+        rule="for each text of the families (F1 token sequences over 22 tokens, F2 byte-complete strings over per-scanner alphabets, "
+             "F3 documents/streams) x 8 flag sets x {as is, with final NUL}: the whole partition lattice as a graph of (position, exact "
+             "parser state) nodes, every node carried to every longer prefix; non-trivial = distinct (text, flags) longer than 2 bytes that "
+             "is not rejected at its first byte",
+        bound=dict(quick="F1 <= 3 tokens; F2 alphabets one byte shorter than thorough", thorough="F1 <= 4 tokens; F2 numbers <= 6, escapes <= 7, literals <= 5, comments <= 6, utf-8 <= 4 bytes"),
+        states_stat="nodes", transitions_stat="edges",
+        technique="explicit-state exploration of the partition lattice of each text on the real tokener, merged on exact parser state, per-prefix differential oracle",
+        claim="all 2^(n-1) ways to split every enumerated text into calls are covered (graph with exact-state merging); every partition's outcome at every "
+              "prefix equals one call on the same bytes, and resuming after a success equals a fresh parser",
+        note="state key reads struct json_tokener (public header) for merging only; alarms are raised on API-observable outcomes only",
+        assumptions=COMMON_ASSUMPTIONS,
+    ),
+    "C04": dict(
+        level="model_checking",
+        runs=[dict(harness="parsegraph", variant="san", shards=16, args=["mode=c04"], tag="c04")],
+        deadline=dict(quick=420, thorough=3000),
+        rule="(a) every byte string of length <= 2 (thorough: 3, third byte from 32 class representatives) over all 256 values x 8 flag sets x depth limits {1,2,32}, "
+             "whole partition lattice, exact length against a guard page, ASan+UBSan build; (b) the C03 families in the sanitizer build; (c) after every distinct "
+             "(outcome, parser state) of those graphs: json_tokener_reset then 30 probe texts and probe/reset/probe sequences compared with a new parser; "
+             "non-trivial = distinct (text, flags) not rejected at its first byte",
+        bound=dict(quick="arbitrary bytes <= 2; C03 quick families", thorough="arbitrary bytes <= 3 (reduced third byte); C03 thorough families"),
+        states_stat="nodes", transitions_stat="edges",
+        technique="explicit-state exploration of parse/reset/parse histories on the real tokener under ASan/UBSan with a guard page, fresh-parser differential oracle",
+        claim="every call in every partition of every enumerated byte string terminated with exactly one of the three outcomes, within bounds, without a sanitizer report; "
+              "after every reachable outcome a reset parser answered 30 probes exactly like a new one, and nothing stayed allocated after free",
+        note="sanitizers + guard page + allocation accounting as oracles; probe set chosen to read every persistent scanner field",
+        assumptions=COMMON_ASSUMPTIONS,
+    ),
+    "C15": dict(
+        level="model_checking",
+        runs=[dict(harness="parsegraph", variant="san", shards=16, args=["mode=c15"], tag="c15")],
+        deadline=dict(quick=300, thorough=1800),
+        rule="depth limits D x every opener sequence over {[, {\"k\":} of length 0..D+2 (all 2^k shapes up to k=10, three regular patterns beyond) x innermost in "
+             "{1, \"\", [], {}, empty container} x {with, without a shallow sibling first} x {default, strict}; one shot (NUL-terminated) and, for small D, the whole partition "
+             "lattice; refused D in {0,-1,INT_MIN}; 20000-deep unclosed hostile input one-shot and bytewise; non-trivial = document whose deepest enclosure is D-1 or beyond",
+        bound=dict(quick="D in 1..8, lattice for D<=4", thorough="D in 1..34 (contains the default 32), lattice for D<=6"),
+        states_stat="cases", transitions_stat="calls",
+        technique="exhaustive enumeration of nesting shapes x depth limits on the real tokener (ASan build), enclosure-depth reference reader as oracle",
+        claim="acceptance, error kind, error position and peak allocation were compared with an enclosure-depth reference for every shape at, below and beyond every limit; "
+              "any access past the level stack is an ASan report",
+        note="peak-allocation bound is 8*D+8 blocks (node + container + key per level, with slack)",
+        assumptions=COMMON_ASSUMPTIONS,
+    ),
 }
 
 NOT_APPLICABLE = {}
